@@ -63,6 +63,7 @@ Proof.
   destruct (token_by_minunit s denom) as [tb|] eqn:Etb; [|discriminate].
   destruct (get (t_minunit tb) (registry s)) as [[target ratio]|] eqn:Er; [|discriminate].
   destruct (token_by_minunit s target) as [tm|] eqn:Etm; [|discriminate].
+  inv_if H.
   destruct (lossless_swap amt ratio (t_scale tb) (t_scale tm)) as [b mt] eqn:El.
   inv_if H. inv_bind H. inv_bind H. inv_bind H.
   exists tb, target, ratio, tm, b, mt, x, x0, x1. repeat split; assumption.
